@@ -289,6 +289,8 @@ def gen_trace(rng):
                 c["faults"] = [{"kind": "raw_write_fail", "k": rng.randint(0, 3), "errno": "EIO"}]
             elif r < 0.25:
                 c["faults"] = [{"kind": "close_fail", "errno": "EIO"}]
+            elif r < 0.33:
+                c["faults"] = [{"kind": "disk_full", "capacity": rng.choice([0, 10, 100, 700, 5000])}]
         return {"mode": "history", "obj": recipe, "calls": calls, "buffer_size": rng.choice([16, 8192])}
     n = rng.randint(2, 4)
     calls = [call() for _ in range(n)]
